@@ -1017,6 +1017,28 @@ func c13Tasks(tier string) []mc.Task {
 		}
 	}
 
+	// ---- (C3) compression over letter sets in which two different 2-row columns collide under the usual
+	// polynomial string hashes (h*31+c: (M,L)/(N,-); h*33+c: (A,N)/(B,-); h*37+c: (A,R)/(B,-)) and under byte
+	// sums/xors ((A,D)/(B,C), (A,B)/(B,A)): an index keyed by a hash of the column must still tell them apart
+	for _, ls := range []struct {
+		alpha   int
+		letters string
+	}{{align.AMINOACIDS, "MLN-"}, {align.NUCLEOTIDS, "ABN-"}, {align.NUCLEOTIDS, "ABR-"}, {align.NUCLEOTIDS, "ABCD"}} {
+		ls := ls
+		for _, sh := range [][2]int{{2, 3}, {2, 4}, {3, 3}} {
+			n, L := sh[0], sh[1]
+			if n*L > 8 && tier != "thorough" {
+				continue
+			}
+			ts = append(ts, c13SizedTask{c13Pow(4, n*L) * 2, mc.Task{Name: fmt.Sprintf("compress-colliding#%s/n%d/L%d", ls.letters, n, L), Run: func(c *mc.Ctx) {
+				forEachStringLen(ls.letters, n*L, nil, func(s []byte) bool {
+					c13Check(c, c13Case{Op: "compress", Alpha: ls.alpha, Seqs: c13Cut(s, n, L)})
+					return !c.Expired()
+				})
+			}}})
+		}
+	}
+
 	// ---- (D3) many rows: every one-column alignment of 13..16 rows over {A,C} (more rows than the
 	// small-input paths of sorting and hashing code take), both alphabets, both nAsGap values
 	for n := 13; n <= 16; n++ {
@@ -1070,7 +1092,7 @@ func init() {
 	mc.Register(&mc.Prop{
 		ID:    "C13",
 		Level: "exploration",
-		Rule: cliStreamRule[1:] + " " + "(also: every one-column alignment of 13..16 rows over {A,C}; Compress and Deduplicate on 3x4500 and 40x30 alignments against the oracle and under the controlled scheduler, preemption bound 1 — one execution unless the operation spawns goroutines;) bounded-exhaustive enumeration, nucleotide letters {A,-,N,C,X} / protein letters {A,-,X,C,N} taken as the first k of that list, rows named q,b,z,a,m,c,... with distinct comments. " +
+		Rule: cliStreamRule[1:] + " " + "(also: Compress on every 2x3 and 2x4 [thorough 3x3] alignment over {M,L,N,-}, {A,B,N,-}, {A,B,R,-}, {A,B,C,D}, letter sets in which two different columns collide under the usual polynomial string hashes and byte sums; every one-column alignment of 13..16 rows over {A,C}; Compress and Deduplicate on 3x4500 and 40x30 alignments against the oracle and under the controlled scheduler, preemption bound 1 — one execution unless the operation spawns goroutines;) bounded-exhaustive enumeration, nucleotide letters {A,-,N,C,X} / protein letters {A,-,X,C,N} taken as the first k of that list, rows named q,b,z,a,m,c,... with distinct comments. " +
 			"DEDUP on alignments: every n x L matrix for n<=4, L<=2 (k=5), n<=3, L=3 (k=4), 4x3 (k=3), 5x1, 6x1, 2x4 (k=4), 5x2, 6x2, 2x5, 3x4 (k=3), and the alignment without rows; thorough adds 4x3, 3x4, 5x2, 6x2, 2x5 (k=4), 2x6, 7x2, 5x3 (k=3), 3x3 (k=5). " +
 			"DEDUP on sequence sets (ragged): every n-tuple of strings of length 0..m for (n,m,k) = (1..3,3,4), (4,2,4), (5,2,3), (3,2,5), and the set without sequences; thorough adds (4,3,3), (5,2,4), (3,4,3). " +
 			"Every dedup input is run for both alphabets and both nAsGap values, Deduplicate applied twice. " +
